@@ -2,6 +2,7 @@ SPEC = {
     "bins": [
         {"name": "c10", "pkg": "./zz_verif/c10", "run": "^Test", "shards": {"quick": 1, "thorough": 16}},
         {"name": "c10a", "pkg": "./zz_verif/c10a", "run": "^Test", "shards": {"quick": 1, "thorough": 16}},
+        {"name": "c10b", "pkg": "./zz_verif/c10b", "run": "^Test", "shards": {"quick": 1, "thorough": 16}},
         {"name": "c10fuzz", "pkg": "./zz_verif/c10", "fuzz": "FuzzC10", "fuzztime": "60s", "tiers": ["thorough"], "shards": {"thorough": 1}},
         {"name": "c10afuzz", "pkg": "./zz_verif/c10a", "fuzz": "FuzzC10", "fuzztime": "60s", "tiers": ["thorough"], "shards": {"thorough": 1}},
     ],
